@@ -56,6 +56,7 @@ CONSTANTS Conn,      \* sequence of connection names, accepted in this order, e.
 \* values for Conn / Client (configuration files cannot write tuples: Conn <- Conn2 ...)
 Conn2 == <<"c1", "c2">>
 Conn3 == <<"c1", "c2", "c3">>
+Client1 == <<"A">>
 Client2 == <<"A", "B">>
 Client3 == <<"A", "B", "C">>
 
